@@ -433,6 +433,10 @@ class MinFlowDecomp(pathmodel.AbstractPathModelDAG): # Note that we inherit from
         if any(self.flow_attr not in self.G.edges[e] for e in self.G.edges):
             return None
 
+        # Nor is anything computed from flow values that are not valid (negative or NaN): the k-model rejects them with a ValueError
+        if any(not (self.G.edges[e][self.flow_attr] >= 0) for e in self.G.edges):
+            return None
+
         min_gen_set_start_time = time.perf_counter()
         all_weights = list(set({self.G.edges[e][self.flow_attr] for e in self.G.edges() if self.flow_attr in self.G.edges[e]}))
         # Get the source_flow as the sum of the flow values on all the edges exiting the source nodes
